@@ -60,6 +60,10 @@ let q_of_ints a b : q = { qnum = z_of_int a; qden = (match z_of_int b with Zpos 
 let eps : q = { qnum = Zpos XH; qden = (match z_of_u64 (Int64.shift_left 1L 30) with Zpos p -> p | _ -> XH) }
 
 let max_words = 70000
+let max_grid = 20000.0
+let float_of_z (z : z) : float =
+  let rec fpos = function XH -> 1.0 | XO p -> 2.0 *. fpos p | XI p -> 2.0 *. fpos p +. 1.0 in
+  match z with Z0 -> 0.0 | Zpos p -> fpos p | Zneg p -> -. fpos p
 let prof = (try Sys.getenv "DIST_PROF" <> "" with Not_found -> false)
 let tick = ref (Sys.time ())
 let lap name = if prof then begin let t = Sys.time () in Printf.eprintf "  %s %.3fs\n" name (t -. !tick); tick := t end
@@ -106,7 +110,8 @@ let process line =
     scope := in_scope;
     if not (f64_ninf_agrees cells64) then df "model-selfcheck disc_ninf";
     lap "parse";
-    let model = f64_build cells64 bg64 in
+    (* build_fast = build (C11_build_fast_eq): linear-time reversal of the pdf *)
+    let model = f64_build_fast cells64 bg64 in
     lap "f64_build";
     let built_panic = List.mem "BUILDPANIC" otoks in
     (match model, built_panic with
@@ -148,6 +153,20 @@ let process line =
                                     (List.combine r bg_bits)) in
              if acc > max_words then acc else acc * k) 1 m_bits in
          let exact = in_scope && nwords <= max_words in
+         (* the exact tails on the integer grid of the scores (DistGridModel.conv_tableZ, same checker as through the
+            table of all words by C11_grid_checker_eq) when that grid is small and smaller than the number of words:
+            long motifs (too many words) and any matrix with cells on a coarse grid; grid_size bounds the number of
+            distinct word scores: sum over the rows of (max - min) of the integer cells at the common exponent, + 1 *)
+         let grid_size =
+           if in_scope then
+             List.fold_left (fun acc row ->
+                 let vs = List.filter_map (fun o -> match o with Some z -> Some (float_of_z z) | None -> None) row in
+                 match vs with
+                 | [] -> acc
+                 | v :: r -> acc +. (List.fold_left max v r -. List.fold_left min v r)) 1.0 (c11_zc mvals)
+           else infinity in
+         let grid = in_scope && grid_size <= max_grid && (not exact || grid_size < float_of_int nwords) in
+         let per_probe = if grid then 2 * int_of_float grid_size else 2 * nwords in
          let budget = ref 2_500_000 in
          let pv_list = ref [] and br_list = ref [] in   (* reversed *)
          if List.length pr_bits <> List.length pv_obs then df "pvalue: observation count"
@@ -162,8 +181,8 @@ let process line =
                end else if not (is_nan32 sb) then begin
                  let pv64 = f64_of_u64 (u64_of_string po) in
                  pv_list := (s64, pv64) :: !pv_list;
-                 if exact && finite32 sb && !budget > 0 then begin
-                   budget := !budget - 2 * nwords;
+                 if (exact || grid) && finite32 sb && !budget > 0 then begin
+                   budget := !budget - per_probe;
                    br_list := (i, sb, po, (s64, pv64)) :: !br_list
                  end
                end) (List.combine pr_bits pv_obs);
@@ -214,7 +233,7 @@ let process line =
          lap "scores";
          (* ---------- the property, decided by the extracted checker ---------- *)
          let pvl = List.rev !pv_list and brl = List.rev !br_list and rtl = List.rev !rt_list in
-         let fails = check_C11_fails mvals bg64 impl_sf_vals pvl
+         let fails = (if grid then check_C11_grid_fails else check_C11_fails) mvals bg64 impl_sf_vals pvl
              (List.map (fun (_, _, _, x) -> x) brl) (List.map (fun (_, _, _, _, _, x) -> x) rtl) in
          lap "check_C11";
          List.iter (fun (kind, idx) ->
@@ -242,7 +261,7 @@ let process line =
                       | Ok (_, scale) ->
                           let dd = qdiv (qplus (qdiv (inject_Z (z_of_int mrows)) (q_of_ints 2 1)) (q_of_ints 1 1)) scale in
                           let sq = f64_to_Q (f64_of_f32bits sb) in
-                          let tab = word_tableZ (c11_zc mvals) (c11_zb bg64) in
+                          let tab = (if grid then conv_tableZ else word_tableZ) (c11_zc mvals) (c11_zb bg64) in
                           (float_of_q (tail_dy tab (c11_k mvals) (c11_j bg64) (z_of_int mrows)
                                          (if code = 3 then qplus sq dd else qminus sq dd)), float_of_q dd)
                       | _ -> (nan, nan)) in
